@@ -334,6 +334,103 @@ func runC03(c *Check) {
 			c.bad("C03-R5", key, p.relFile(r.Pos()), fmt.Sprintf("pm.%s is not reset with a fresh table before the entities of each input are mapped (dominates: %v, fresh: %v)", F, dom, fresh))
 		}
 	}
+
+	// ---- R8 the merged sample list only grows.  Locations, functions and mappings enter the
+	// result when a sample that uses them is mapped; a sample removed from the list afterwards
+	// would leave them behind ("nothing else is added").  Zero stacks are therefore dropped
+	// by re-merging (R6), and every assignment of Profile.Sample in the merge tree appends to
+	// the previous value of the same field.
+	{
+		n := 0
+		var fns []*ssa.Function
+		for _, f := range tree {
+			fns = append(fns, f)
+		}
+		sortFns(fns)
+		for _, f := range fns {
+			for _, b := range f.Blocks {
+				for _, ins := range b.Instrs {
+					st, ok := ins.(*ssa.Store)
+					if !ok {
+						continue
+					}
+					fa, ok := st.Addr.(*ssa.FieldAddr)
+					if !ok {
+						continue
+					}
+					if T, F := fieldOf(fa.X.Type(), fa.Field); T != "profile.Profile" || F != "Sample" {
+						continue
+					}
+					if _, fresh := fa.X.(*ssa.Alloc); fresh {
+						continue // initialising a new profile
+					}
+					n++
+					key := "append-only:" + fnName(f)
+					okApp := false
+					if call, ok := st.Val.(*ssa.Call); ok {
+						if bi, ok := call.Call.Value.(*ssa.Builtin); ok && bi.Name() == "append" {
+							if ld, ok := call.Call.Args[0].(*ssa.UnOp); ok && ld.Op == token.MUL {
+								if fa2, ok := ld.X.(*ssa.FieldAddr); ok && fa2.Field == fa.Field && sameNode(fa2.X, fa.X) {
+									okApp = true
+								}
+							}
+						}
+					}
+					if okApp {
+						c.ok("C03-R8", key, p.relFile(st.Pos()), "the merged sample list grows by appending in "+fnName(f), "Profile.Sample = append(Profile.Sample, …) on the same profile")
+					} else {
+						c.bad("C03-R8", key, p.relFile(st.Pos()), fnName(f)+" re-assigns the merged profile's sample list with something other than an append to it: samples dropped after their locations, functions and mappings were added leave those entities behind, so the result carries unreferenced entries and differs from its own compaction")
+					}
+				}
+			}
+		}
+		if n == 0 {
+			c.undecided("C03-R8", "append-only", "", "no assignment of Profile.Sample found in the merge tree")
+		}
+	}
+
+	// ---- R9 binary identity: the file name stands in for the build id only when there is
+	// no build id.  In Mapping.key the store of the file name into the key is unreachable
+	// when BuildID is non-empty, and the build id is stored on that path.
+	if mk := tree["(*Mapping).key"]; mk != nil {
+		reach := reachUnder(mk, func(cond ssa.Value) int { return -strFieldEmptyCond(cond, "BuildID") })
+		fileStore, idStore := 0, 0
+		bad := ""
+		for _, b := range mk.Blocks {
+			for _, ins := range b.Instrs {
+				st, ok := ins.(*ssa.Store)
+				if !ok {
+					continue
+				}
+				fa, ok := st.Addr.(*ssa.FieldAddr)
+				if !ok {
+					continue
+				}
+				if T, _ := fieldOf(fa.X.Type(), fa.Field); T != "profile.mappingKey" {
+					continue
+				}
+				switch {
+				case mustDepend(st.Val, func(v ssa.Value) bool { return fieldLoadOf(v, "profile.Mapping", "File") }):
+					fileStore++
+					if reach[b] {
+						bad = p.relFile(st.Pos())
+					}
+				case mustDepend(st.Val, func(v ssa.Value) bool { return fieldLoadOf(v, "profile.Mapping", "BuildID") }):
+					if reach[b] {
+						idStore++
+					}
+				}
+			}
+		}
+		switch {
+		case fileStore == 0 || idStore == 0:
+			c.undecided("C03-R9", "buildid-first", p.relFile(mk.Pos()), fmt.Sprintf("Mapping.key: expected a store of the build id (found %d on the BuildID != \"\" path) and of the file name (found %d)", idStore, fileStore))
+		case bad != "":
+			c.bad("C03-R9", "buildid-first", bad, "Mapping.key uses the file name for identity although the mapping has a build id: the same binary installed under two paths is no longer unified, and two different builds at one path are merged into one mapping (their stacks' weights are added together)")
+		default:
+			c.ok("C03-R9", "buildid-first", p.relFile(mk.Pos()), "the file name identifies a mapping only when it has no build id", "the store of Mapping.File into the key is unreachable when BuildID != \"\"; the build id is stored on that path")
+		}
+	}
 }
 
 func isRefType(t types.Type) bool {
